@@ -15,6 +15,7 @@ import (
 	"net/url"
 	"strconv"
 	"strings"
+	"sync"
 
 	"github.com/opencontainers/go-digest"
 	ocispec "github.com/opencontainers/image-spec/specs-go/v1"
@@ -38,11 +39,41 @@ type fakeRegistry struct {
 	filters   bool   // the artifactType query parameter is applied (and announced) by the registry
 	seed      uint64 // PRNG key of the page lengths
 	srv       *httptest.Server
+
+	mu        sync.Mutex
+	countdown int  // > 0: the countdown-th request from now is answered 403 (fault injection)
+	didFire   bool
+}
+
+// arm makes the k-th request from now fail (k = 0 disarms).
+func (f *fakeRegistry) arm(k int) {
+	f.mu.Lock()
+	defer f.mu.Unlock()
+	f.countdown, f.didFire = k, false
+}
+
+func (f *fakeRegistry) fired() bool {
+	f.mu.Lock()
+	defer f.mu.Unlock()
+	return f.didFire
+}
+
+func (f *fakeRegistry) faultNow() bool {
+	f.mu.Lock()
+	defer f.mu.Unlock()
+	if f.countdown > 0 {
+		f.countdown--
+		if f.countdown == 0 {
+			f.didFire = true
+			return true
+		}
+	}
+	return false
 }
 
 func (f *fakeRegistry) host() string { return strings.TrimPrefix(f.srv.URL, "http://") }
 
-func newFakeRegistry(g *dag.Graph, spec *caseSpec) *fakeRegistry {
+func newFakeRegistry(g *dag.Graph, spec *caseSpec) (reg *fakeRegistry, err error) {
 	f := &fakeRegistry{manifests: map[string]regEntry{}, blobs: map[string][]byte{}, tags: map[string]string{},
 		referrers: map[string][]ocispec.Descriptor{}, api: spec.Src == "remote-api", page: spec.Page,
 		split: spec.Split, filters: spec.ServerFilter, seed: spec.PermSeed}
@@ -72,7 +103,15 @@ func newFakeRegistry(g *dag.Graph, spec *caseSpec) *fakeRegistry {
 		for _, n := range refs {
 			d := n.Desc
 			d.ArtifactType = effType(g, n)
-			if n.Annotations != nil {
+			omitAnn := false
+			if spec.Incomplete {
+				// a registry that does not fill in the optional fields
+				if pr.Chance(1, 2) {
+					d.ArtifactType = ""
+				}
+				omitAnn = pr.Chance(1, 2)
+			}
+			if n.Annotations != nil && !omitAnn {
 				d.Annotations = map[string]string{}
 				for k, v := range n.Annotations {
 					d.Annotations[k] = v
@@ -94,8 +133,14 @@ func newFakeRegistry(g *dag.Graph, spec *caseSpec) *fakeRegistry {
 	if g.Nodes[spec.Start].IsManifest() {
 		f.tags[startTag(spec.Start)] = g.Nodes[spec.Start].Desc.Digest.String()
 	}
+	defer func() {
+		// httptest.NewServer panics when no loopback listener can be opened
+		if p := recover(); p != nil {
+			reg, err = nil, fmt.Errorf("in-memory registry: %v", p)
+		}
+	}()
 	f.srv = httptest.NewServer(f)
-	return f
+	return f, nil
 }
 
 func (f *fakeRegistry) serveContent(w http.ResponseWriter, r *http.Request, mt, dg string, data []byte) {
@@ -111,6 +156,11 @@ func (f *fakeRegistry) serveContent(w http.ResponseWriter, r *http.Request, mt, 
 func (f *fakeRegistry) ServeHTTP(w http.ResponseWriter, r *http.Request) {
 	if r.Method != http.MethodGet && r.Method != http.MethodHead {
 		http.Error(w, "read-only", http.StatusMethodNotAllowed)
+		return
+	}
+	if f.faultNow() {
+		// not retried by the client's retry policy (4xx), unlike a 5xx
+		http.Error(w, `{"errors":[{"code":"DENIED","message":"injected"}]}`, http.StatusForbidden)
 		return
 	}
 	p := r.URL.Path
